@@ -47,3 +47,20 @@ kstrobe_twin!(k_canary_must_fail_ppo, 70, {
   strobe_hash(&[1, 2, 4], "x", &mut b);
   assert!(a[0] == b[0] && a[1] == b[1] && a[2] == b[2]);
 });
+
+/// ProofDLEQ::i2osp2 (complete, all usize values that fit): big-endian two bytes; this also
+/// discharges the contracts Verus ASSUMES for `u16::to_be_bytes` and `usize -> u16` try_into (N3/N7)
+#[kani::proof]
+fn k_i2osp2() {
+  let x: usize = kani::any();
+  kani::assume(x <= 65535);
+  let b = ProofDLEQ::i2osp2(x);
+  assert!(b[0] as usize == x / 256 && b[1] as usize == x % 256);
+  let y: usize = kani::any();
+  let r: Result<u16, _> = y.try_into();
+  assert!(r.is_ok() == (y <= 65535));
+  if let Ok(v) = r { assert!(v as usize == y); }
+  let z: u16 = kani::any();
+  let zb = z.to_be_bytes();
+  assert!(zb[0] == (z >> 8) as u8 && zb[1] == (z & 0xff) as u8);
+}
